@@ -56,7 +56,7 @@ def check(run):
         if len(inp) < 2 * hl:
             continue
         op = int(inp[2 * (hl - 5):2 * (hl - 5) + 2], 16)
-        hcases.append((r["id"], "Bool.eqb (spec_header_acceptable %d %d) %s" % (vb, op, "true" if r["outcome"] == "ok" else "false")))
+        hcases.append((r["id"], "Bool.eqb (spec_header_acceptable_strict %d %d) %s" % (vb, op, "true" if r["outcome"] == "ok" else "false")))
     compared = 0
     if not pr["ok"] and hcases:
         # the proofs are broken: the rejection clause can still be searched, it needs only the specification side
@@ -99,7 +99,7 @@ def check(run):
     c["distinct_nontrivial"] = len({r.get("bytes") for r in sel})
     c["rule"] = ("bytes emitted by the real EncodeFrame for generated version-valid frames (deterministic ones: no map with >= 2 entries) compared inside coqc "
                  "with the independent spec serializer; frames for which the version's specification defines no layout are counted but not compared; the real "
-                 "DecodeHeader on header mutations (all version bytes x direction, all opcodes) compared with spec_header_acceptable")
+                 "DecodeHeader on header mutations (all version bytes x direction, all opcodes) compared with spec_header_acceptable_strict (an opcode must be known to that version: 0xFF only in DSE)")
     c["samples"] = [fc.slim(r, ("id", "kind", "version", "flags", "bytes")) for r in sel[:5]]
     c["frames_with_spec_layout_compared"] = compared
     c["frames_without_spec_layout"] = len(ncases) - compared
